@@ -1,2 +1,17 @@
 import BklProofs.C12
-#print axioms Bkl.C12_placeholder
+#print axioms Bkl.C12_doc_int
+#print axioms Bkl.C12_doc_int_length
+#print axioms Bkl.C12_doc_named
+#print axioms Bkl.C12_doc_named_ec1
+#print axioms Bkl.C12_doc_named_ec1_get
+#print axioms Bkl.C12_doc_named_length
+#print axioms Bkl.C12_doc_named_nodup
+#print axioms Bkl.C12_nonint_error
+#print axioms Bkl.C12_nonint_error_named
+#print axioms Bkl.C12_nonint_error_nested
+#print axioms Bkl.C12_list_nested
+#print axioms Bkl.C12_list_nested_exact
+#print axioms Bkl.C12_repeatDoc_no_repeat_map
+#print axioms Bkl.C12_repeatDoc_no_repeat_list
+#print axioms Bkl.C12_repeatDoc_no_repeat_scalar
+#print axioms Bkl.C12_repeatDoc_map_int
